@@ -16,13 +16,13 @@ for d in sorted(glob.glob('/verif/seeded/*/')):
     elif missed:
         mm = re.search(r'(C\d\d) strengthened', hist)
         note = f"missed at first; {mm.group(1) if mm else 'check'} strengthened, now caught"
-    if re.search(r'round (?:[456789]|1[012]):', hist) and re.search(r'missed', hist):
+    if re.search(r'round (?:[456789]|1[0123]):', hist) and re.search(r'missed', hist):
         note = f"missed at first; {m['breaks_property']} strengthened, now caught"
     if 'machinery errors' in hist:
         note = "four checks ended as machinery errors at first; the driver now reports escaped subject panics"
     if 'not reported by C11' in hist:
         note = "under run() only the order of `remaining` changes, which C11's statement leaves open; the stepping symptoms are C10's and C02's subject and are reported there"
-    m9 = re.search(r'round (?:[89]|1[012]): (not reported.*)', hist)
+    m9 = re.search(r'round (?:[89]|1[0123]): (not reported.*)', hist)
     if m9:
         note = m9.group(1)[:230].rstrip() + ('...' if len(m9.group(1)) > 230 else '')
     if 'ended as a machinery error at first' in hist:
